@@ -1,22 +1,174 @@
 """Narrow input predicates for the entries of /verif/known-findings.txt.
 
-A predicate sees a Failure (kind, features of the failing *input*, case) and
-says whether that failure is the listed finding.  Predicates are over inputs,
-not symptoms; each names its root cause.  The file known-findings.txt is never
-written at run time."""
+A predicate sees the failing *input* (codec/config, AST type, value) through a
+lazily loaded context and says whether the failure is the listed finding.
+Predicates are over inputs, never over symptoms; each names its root cause.
+known-findings.txt is never written at run time."""
+from . import asn
 
-PREDICATES = {}      # (property, finding id) -> function(failure) -> bool
+PREDICATES = {}      # (property, finding id) -> function(ctx) -> bool
 
 
-def finding(prop, fid):
+def finding(props, fid):
     def deco(fn):
-        PREDICATES[(prop, fid)] = fn
+        for p in ([props] if isinstance(props, str) else props):
+            PREDICATES[(p, fid)] = fn
         return fn
     return deco
 
 
+class Ctx(object):
+    def __init__(self, failure):
+        self.f = failure
+        self.case = failure.case
+        self.codec = failure.case.get('codec')
+        self._loaded = None
+
+    def load(self):
+        if self._loaded is None:
+            from . import common
+            try:
+                self._loaded = common.load_case(self.case)
+            except Exception:
+                self._loaded = False
+        return self._loaded
+
+    def tnodes(self):
+        from . import common
+        ld = self.load()
+        if not ld:
+            return []
+        spec, modname, name, ty, v = ld
+        return list(common.walk_types(spec, ty, modname))
+
+    def vnodes(self):
+        from . import common
+        ld = self.load()
+        if not ld:
+            return []
+        spec, modname, name, ty, v = ld
+        return list(common.walk_values(spec, ty, modname, v))
+
+    @property
+    def spec(self):
+        ld = self.load()
+        return ld[0] if ld else None
+
+
 def match(prop, failure):
+    ctx = None
     for (p, fid), fn in PREDICATES.items():
-        if p == prop and fn(failure):
-            return fid
+        if p != prop:
+            continue
+        if ctx is None:
+            ctx = Ctx(failure)
+        try:
+            if fn(ctx):
+                return fid
+        except Exception:
+            continue
     return None
+
+
+BINARY = ('C01', 'C16', 'C15', 'C18', 'C13', 'C19', 'C07')
+KM_STRINGS = ('NumericString', 'PrintableString', 'VisibleString', 'IA5String', 'BMPString',
+              'UniversalString')
+
+
+def untagged_choice_alt(ctx, n):
+    """n is a CHOICE node with an alternative that is itself an untagged CHOICE."""
+    if n.r.base.kind != 'CHOICE':
+        return False
+    for m in n.r.base.all_members():
+        if m.auto is not None:
+            continue
+        layers, r = asn.effective_tags(ctx.spec, m.ty, n.r.mod)
+        if not layers and r.base.kind == 'CHOICE':
+            return True
+    return False
+
+
+@finding(BINARY, 'oer-choice-in-choice')
+def _oer_choice_in_choice(ctx):
+    # oer.py Choice.add_tags/encode: an alternative that is an untagged CHOICE has tag None
+    return ctx.codec == 'oer' and any(untagged_choice_alt(ctx, n) for n in ctx.tnodes())
+
+
+@finding(BINARY, 'oer-utf8-fixed-size')
+def _oer_utf8_fixed(ctx):
+    # oer.py: UTF8String (SIZE(n)) is encoded as n octets without length (pinned by tests/test_oer.py)
+    if ctx.codec != 'oer':
+        return False
+    for n in ctx.vnodes():
+        if (n.r.base.kind == 'UTF8String' and n.r.size is not None and not n.r.size.ext
+                and n.r.size.lo == n.r.size.hi and isinstance(n.value, str)
+                and len(n.value.encode('utf-8')) != len(n.value)):
+            return True
+    return False
+
+
+@finding(BINARY, 'ber-skippable-ext-choice')
+def _ber_skippable_ext_choice(ctx):
+    # ber.py Choice.decode: an extensible untagged CHOICE treats any unknown tag as an unknown
+    # alternative, so an absent OPTIONAL/DEFAULT one swallows the next member
+    if ctx.codec not in ('ber', 'der'):
+        return False
+    from . import gen
+    for n in ctx.tnodes():
+        if n.member is None or n.parent is None or n.parent.r.base.kind not in ('SEQUENCE', 'SET'):
+            continue
+        if n.r.base.kind != 'CHOICE' or n.member.auto is not None:
+            continue
+        layers, r = asn.effective_tags(ctx.spec, n.ty, n.mod)
+        if layers:
+            continue
+        if not gen.is_ext(ctx.spec, n.r.base, n.r.mod):
+            continue
+        if n.skippable or n.parent.r.base.kind == 'SET':
+            return True
+    return False
+
+
+@finding(BINARY, 'per-ext-open-bound')
+def _per_ext_open_bound(ctx):
+    # per.py/uper.py compare len(data) with 'MAX'/None when an extensible constraint has MIN/MAX
+    if ctx.codec not in ('per', 'uper'):
+        return False
+    for n in ctx.tnodes():
+        for c in (n.r.size, n.r.rng):
+            if c is not None and c.ext and (c.lo is None or c.hi is None):
+                if c is n.r.rng and n.r.base.kind != 'INTEGER':
+                    continue
+                return True
+    return False
+
+
+@finding(BINARY, 'per-from-single-char')
+def _per_from_single(ctx):
+    # per.py KnownMultiplierStringType: alphabet of one character gives 0 bits per character and
+    # the decoder rebuilds an empty string
+    if ctx.codec not in ('per', 'uper'):
+        return False
+    for n in ctx.tnodes():
+        if n.r.alpha is not None and len(n.r.alpha.chars()) == 1 and n.r.base.kind in KM_STRINGS:
+            return True
+    return False
+
+
+@finding(BINARY, 'per-group-zero-bits')
+def _per_group_zero_bits(ctx):
+    # per.py encode_addition_group/encode_additions: a [[ ]] group whose present members all
+    # encode to zero bits is treated as absent
+    if ctx.codec not in ('per', 'uper'):
+        return False
+    from . import common
+    for n in ctx.vnodes():
+        b = n.r.base
+        if b.kind not in ('SEQUENCE', 'SET') or not isinstance(n.value, dict):
+            continue
+        for a in (b.ext or []):
+            if isinstance(a, asn.Group):
+                present = [m for m in a.members if m.name in n.value]
+                if present and all(common.zero_width(ctx.spec, m.ty, n.r.mod) for m in present):
+                    return True
+    return False
